@@ -125,6 +125,21 @@ pub fn emit_mp4<W: Write>(out: &mut W, id: &str, s: &Sparse, cfg: &Cfg, kind: Ki
         }
     }
     let b = run_mp4_metered(&s2, cfg, kind);
+    // a third run: every media / gap payload BEGINS (and ends) with bytes that look like structure - two empty `free`
+    // boxes - so that a scan that ever takes payload bytes for a box header continues instead of failing
+    let mut s3 = s.clone();
+    let fake: [u8; 16] = [0, 0, 0, 8, b'f', b'r', b'e', b'e', 0, 0, 0, 8, b'f', b'r', b'e', b'e'];
+    for &(off, len) in media {
+        if len >= 16 {
+            for (i, v) in fake.iter().enumerate() {
+                s3.set_byte(off + i as u64, *v);
+                if len >= 32 {
+                    s3.set_byte(off + len - 16 + i as u64, *v);
+                }
+            }
+        }
+    }
+    let b3 = run_mp4_metered(&s3, cfg, kind);
     // the async entry point over a native AsyncSkip reader whose every operation is suspended once: the same answer and
     // the same bytes obtained from the input (media is not inspected under any schedule either)
     let (pres, pranges) = crate::quiet(AssertUnwindSafe(|| {
@@ -134,7 +149,7 @@ pub fn emit_mp4<W: Write>(out: &mut W, id: &str, s: &Sparse, cfg: &Cfg, kind: Ki
     .unwrap_or(("panic".into(), "-".into()));
     writeln!(
         out,
-        "C10 id={id} san=mp4 {} {} kind={} res={} mdlen={} read={} calls={} ranges={} peak={} alt={} altread={} pend={pres} pendranges={pranges}",
+        "C10 id={id} san=mp4 {} {} kind={} res={} mdlen={} read={} calls={} ranges={} peak={} alt={} altread={} pend={pres} pendranges={pranges} alt2={}",
         s.line(),
         cfg.line(),
         kind.name(),
@@ -145,7 +160,8 @@ pub fn emit_mp4<W: Write>(out: &mut W, id: &str, s: &Sparse, cfg: &Cfg, kind: Ki
         a.ranges,
         a.peak,
         b.res,
-        b.bytes
+        b.bytes,
+        b3.res
     )
     .unwrap();
 }
